@@ -52,6 +52,7 @@ class TracepointConfigService:
     def __init__(self) -> None:
         """Create new tracepoint config service."""
         self._custom: List['Trigger'] = []
+        self._custom_handles: Dict[str, 'Trigger'] = {}
         self._tracepoint_config: List['Trigger'] = []
         self._current_hash = None
         self._last_update = 0
@@ -161,10 +162,17 @@ class TracepointConfigService:
         :param metrics: the tracepoint metrics
         :return: the new TracePointConfig
         """
-        config = build_trigger(str(uuid.uuid4()), path, line, args, watches, metrics)
+        # the handle identifies this registration only (several registrations can share a file and line)
+        handle = str(uuid.uuid4())
+        config = build_trigger(handle, path, line, args, watches, metrics)
+        if config is None:
+            # the arguments cannot be interpreted (e.g. unknown stage): nothing is installed
+            logging.error("Cannot create tracepoint at %s:%s from args %s", path, line, args)
+            return None
         self._custom.append(config)
+        self._custom_handles[handle] = config
         self.__trigger_update(None, None)
-        return config.id
+        return handle
 
     def remove_custom(self, _id: str):
         """
@@ -172,8 +180,11 @@ class TracepointConfigService:
 
         :param _id: the id of the config to remove
         """
+        target = self._custom_handles.pop(_id, None)
+        if target is None:
+            return
         for idx, cfg in enumerate(self._custom):
-            if cfg.id == _id:
+            if cfg is target:
                 del self._custom[idx]
                 self.__trigger_update(None, None)
                 return
